@@ -60,7 +60,7 @@ func (a *Adv) soupDependent() bool {
 	if a.e.Cfg.Eager {
 		return true
 	}
-	for _, p := range []string{"XT", "VC", "NV", "NVW", "NVH"} {
+	for _, p := range []string{"XT", "VC", "NV", "NVW", "NVH", "NVN"} {
 		if a.on(p) {
 			return true
 		}
@@ -337,7 +337,7 @@ func (a *Adv) build(soup []Sent, t *LState) []int {
 		}
 	}
 	var proofs []proofSrc
-	if a.on("VC") || a.on("NV") || a.on("NVW") || a.on("NVH") {
+	if a.on("VC") || a.on("NV") || a.on("NVW") || a.on("NVH") || a.on("NVN") {
 		proofs = a.proofs(soup, h)
 	}
 	// ---- VC to the target as leader
@@ -369,7 +369,7 @@ func (a *Adv) build(soup []Sent, t *LState) []int {
 		}
 	}
 	// ---- NEW_VIEW in views the adversary leads
-	if a.on("NV") || a.on("NVF") || a.on("NVW") || a.on("NVH") {
+	if a.on("NV") || a.on("NVF") || a.on("NVW") || a.on("NVH") || a.on("NVN") {
 		for v := uint64(1); v <= e.Cfg.MaxView; v++ {
 			if v < t.View {
 				continue
@@ -462,6 +462,15 @@ func (a *Adv) newViews(soup []Sent, t *LState, b primitives.MemberId, v uint64, 
 					mk(votes, lb, kit.HashOf(x), "NVH")
 				}
 			} else {
+				if a.on("NVN") { // a proposal without its block (NVN)
+					x := a.blockFor(h, e.Cfg.Alphabet[0])
+					vcms := make([]*interfaces.ViewChangeMessage, len(votes))
+					for i, c := range votes {
+						vcms[i] = c.vcm
+					}
+					ppb := f.CreatePreprepareMessageContentBuilder(H, V, x, kit.HashOf(x))
+					add(f.CreateNewViewMessage(H, V, ppb, interfaces.ExtractConfirmationsFromViewChangeMessages(vcms), nil), "NVN")
+				}
 				if a.on("NV") {
 					for _, tag := range e.Cfg.Alphabet {
 						x := a.blockFor(h, tag)
